@@ -81,3 +81,64 @@ def run(rep: Report):
 
 def search(rep: Report):
     sweep(rep, Rng(rep.seed * 13 + 303), 60, time.time() + 120)
+
+
+# ------------------------------------------------------------------ constructor defaults (appended; DESIGN §6 C03 "Constructors")
+# (T) harness/translators/defaults.py → lean/TE/Gen/Defaults.lean; theorems in lean/TE/Props/C03_Defaults.lean.
+# (D) every class of the table is constructed for real with no arguments (or only the required ones, at the
+#     smallest documented-valid value) and compared with the Lean verdict on the same defaults.
+from ..translators import defaults as defaults_tr  # noqa: E402
+
+TRUSTED_EXTRA = ["harness/translators/defaults.py (AST of every __init__ + one instrumented constructor run per class) producing "
+                 "lean/TE/Gen/Defaults.lean; harness/translators/shapes.py for the param checks it applies"]
+
+
+def translate(rep: Report):
+    defaults_tr.generate(rep)
+
+
+def defaults_crosscheck(rep: Report):
+    rows = defaults_tr.analyse()
+    out = run_driver(["fn ctor.verdicts"])[0]
+    lean: dict = {}
+    if out.startswith("ok"):
+        for item in out[2:].strip().split(";"):
+            if item:
+                c, h, v = item.split("|")
+                lean.setdefault(c, []).append((h, v))
+    else:
+        rep.broke("defaults:driver", f"ctor.verdicts request failed: {out[:120]}", {})
+    for r in rows:
+        cls = dict(defaults_tr.classes())[r.name]
+        err = None
+        try:
+            cls(**r.ctor_kwargs)
+        except Exception as e:  # noqa: BLE001
+            err = e
+        rep.count("ctor:with-param-check" if r.terms else "ctor:no-param-check")
+        rep.case(nontrivial_key=("ctor-defaults", r.name, bool(r.ctor_kwargs)),
+                 sample={"class": r.name, "kwargs": r.ctor_kwargs, "lean": lean.get(r.name, []), "real": repr(err)[:80] if err else "ok"} if r.name in ("MulticlassBinnedAUPRC", "TopKMultilabelAccuracy") else None)
+        verdicts = lean.get(r.name, [])
+        if len(verdicts) != len(r.terms):
+            rep.broke(f"defaults:{r.name}", f"Lean table has {len(verdicts)} verdicts for {r.name}, the translator found {len(r.terms)} param-check calls "
+                                            "(TE/Gen/Defaults.lean is stale?)", {"class": r.name})
+        lean_ok = all(v == "ok" for _h, v in verdicts)
+        if err is not None:
+            rep.violation(f"C03|{r.name}|default-construction|raises",
+                          f"{r.name}({', '.join(f'{k}={v!r}' for k, v in r.ctor_kwargs.items())}) raises {err!r} on its own default arguments",
+                          {"class": r.name, "kwargs": r.ctor_kwargs, "error": repr(err)})
+            if lean_ok and isinstance(err, (ValueError, TypeError)) and r.terms:
+                rep.broke(f"defaults:{r.name}", f"Lean verdict on the defaults is ok for every param check, the real constructor raises {err!r}", {"class": r.name})
+        elif not lean_ok:
+            rep.broke(f"defaults:{r.name}", f"real constructor accepts its defaults, Lean verdicts: {verdicts}", {"class": r.name, "kwargs": r.ctor_kwargs})
+        for hn, term, note in r.terms:
+            if note:
+                rep.notes.append(f"defaults: {r.name}/{hn}: {note}")
+
+
+_run_streams = run
+
+
+def run(rep: Report):  # noqa: F811
+    defaults_crosscheck(rep)
+    _run_streams(rep)
